@@ -46,14 +46,23 @@ type w13Case struct {
 	Pool  string `json:"pool,omitempty"`  // pool shape: resource kind / way of release
 	PoolN int    `json:"pool_n,omitempty"`
 	// exec-tight shape: stage+1, nested length minus bytes present, property block length (-1: none)
-	ExecStage int       `json:"exec_stage,omitempty"`
-	ExecDelta int       `json:"exec_delta,omitempty"`
-	ExecProps int       `json:"exec_props,omitempty"`
-	Conns     []w13Conn `json:"conns"`
+	ExecStage int `json:"exec_stage,omitempty"`
+	ExecDelta int `json:"exec_delta,omitempty"`
+	ExecProps int `json:"exec_props,omitempty"`
+	// instance configuration of the case: aof_queue_size (0 = the harness default 4096); the executor task free
+	// list, the AOF channel free list and the AOF lock queues have aof_queue_size/64 entries
+	AofQueue int       `json:"aof_queue_size,omitempty"`
+	Fanout   int       `json:"fanout,omitempty"`     // fan-out shape: number of sub-frames of the PIPELINE frame
+	FanCap   int       `json:"fanout_cap,omitempty"` // ... and the capacity it is aimed at (aof_queue_size/64)
+	FanKind  string    `json:"fanout_kind,omitempty"`
+	Conns    []w13Conn `json:"conns"`
 }
 
 func (c *w13Case) fingerprint() uint64 {
 	parts := []interface{}{}
+	if c.AofQueue != 0 {
+		parts = append(parts, fmt.Sprint("aof_queue_size=", c.AofQueue))
+	}
 	for _, cn := range c.Conns {
 		parts = append(parts, cn.Hex, fmt.Sprint(cn.Chunks))
 	}
@@ -348,7 +357,10 @@ type w13Instance struct {
 
 // w13NewInstance builds the instance in two steps: NewSLock (which replaces the package global
 // defaultServerProtocol) runs inside "swap", the rest (AOF files, db 0) outside.
-func w13NewInstance(swap func(create func())) (*w13Instance, error) {
+func w13NewInstance(aofQueue int, swap func(create func())) (*w13Instance, error) {
+	if aofQueue < 64 {
+		aofQueue = 4096
+	}
 	base := os.Getenv("VERIF_DATADIR")
 	if base == "" {
 		base = os.TempDir()
@@ -359,7 +371,7 @@ func w13NewInstance(swap func(create func())) (*w13Instance, error) {
 	}
 	cfg := &ServerConfig{Bind: "127.0.0.1", Port: 5658, Log: "-", LogLevel: "ERROR", LogRotatingSize: 67108864, LogBackupCount: 5,
 		LogBufferFlushTime: 1, DataDir: dir, DBFastKeyCount: 4096, DBConcurrent: 2, DBLockAofTime: 1, DBLockAofParcentTime: 0.3,
-		AofQueueSize: 4096, AofFileRewriteSize: 67174400, AofFileBufferSize: 4096, AofRingBufferSize: 65536, AofRingBufferMaxSize: 1 << 22,
+		AofQueueSize: uint(aofQueue), AofFileRewriteSize: 67174400, AofFileBufferSize: 4096, AofRingBufferSize: 65536, AofRingBufferMaxSize: 1 << 22,
 		SubscribeEnabled: true}
 	logger := w13Logger()
 	var slock *SLock
@@ -421,12 +433,12 @@ var (
 	w13DirtySem = make(chan struct{}, 96)
 )
 
-func w13NextInstance() (*w13Instance, error) {
+func w13NextInstance(aofQueue int) (*w13Instance, error) {
 	w13SwitchMu.Lock()
 	defer w13SwitchMu.Unlock()
 	prev := w13Prev
 	w13Prev = nil
-	in, err := w13NewInstance(func(create func()) {
+	in, err := w13NewInstance(aofQueue, func(create func()) {
 		// the previous instance is frozen only for the instant in which the global changes: holding
 		// its shard mutexes for longer makes its sweep goroutines queue up behind them
 		if prev != nil && !prev.dirty {
@@ -1021,7 +1033,7 @@ func w13Short(b []byte) string {
 // property; harness problems (cannot create the instance) are returned as plain errors in
 // info.Inconclusive.
 func w13RunCase(c *w13Case) (info w13Info, fail *w13Failure) {
-	in, err := w13NextInstance()
+	in, err := w13NextInstance(c.AofQueue)
 	if err != nil {
 		info.Inconclusive = "cannot create instance: " + err.Error()
 		return
